@@ -110,6 +110,16 @@ pub mod tasks {
     pub use crate::tasks::verif_hooks::{
         log_writer_run, pump_run, read_artifact_range, truncate_utf8,
     };
+    pub use crate::tasks::verif_hooks::TaskStreamDriver;
+}
+
+/// The real router plus one registered task stream driven by the caller through the real
+/// `TaskEmitter` (several concurrent producers on one task stream; property C06).
+pub fn build_app_with_task_driver(
+    data_dir: PathBuf,
+    workspace_root: PathBuf,
+) -> (axum::Router, tasks::TaskStreamDriver) {
+    crate::server::verif_build_app_with_task_driver(data_dir, workspace_root)
 }
 
 /// Authority-lock controls: per-thread pid for lock records and scripted `pid_liveness` answers
